@@ -15,11 +15,11 @@ Proof. intro x. destruct (Reqb_spec x x); [reflexivity | congruence]. Qed.
 
 (* unfold everything down to the operations of R *)
 Ltac gsimp :=
-  cbv -[IZR Rplus Rmult Rminus Ropp Rdiv Rinv sqrt cos sin Reqb Rltb Rmin Rmax Rabs PI
-        Rlt Rle Rgt Rge].
+  cbv -[IZR Rplus Rmult Rminus Ropp Rdiv Rinv sqrt cos sin tan Reqb Rltb Rmin Rmax Rabs PI
+        Rlt Rle Rgt Rge Rround Rradians].
 Tactic Notation "gsimp" "in" hyp(H) :=
-  cbv -[IZR Rplus Rmult Rminus Ropp Rdiv Rinv sqrt cos sin Reqb Rltb Rmin Rmax Rabs PI
-        Rlt Rle Rgt Rge] in H.
+  cbv -[IZR Rplus Rmult Rminus Ropp Rdiv Rinv sqrt cos sin tan Reqb Rltb Rmin Rmax Rabs PI
+        Rlt Rle Rgt Rge Rround Rradians] in H.
 
 (* tuples *)
 Ltac dv2 a := destruct a as [? ?].
